@@ -960,6 +960,14 @@ func (c *c20Gen) mutate(doc []byte, ascii bool) [][]byte {
 		`"1:2:Anycast(+1,1)"`, `"1:2:anycast(1,1)"`, `"1:2:Anycast(1,1)x"`, `"1:2:Anycast(1,1x)"`, `"1:2:Anycast(1,1))"`} {
 		add([]byte(s))
 	}
+	// rune-wise parsers: non-ASCII spaces where fmt skips them, runes whose low byte is a hex digit
+	if !ascii {
+		for _, s := range []string{"\"\xc2\xa0" + string(inner) + "\"", "\"\xe2\x80\x83" + string(inner) + "\"", "\"\xc5\x81\"", "\"\xc5\x81_\"",
+			"\"\xc4\xb0\xc4\xb1\"", "\"0:\xc5\x81\"", "\"1:2:Anycast(\xc2\xa01,\xe3\x80\x802)\"", "\"1:2:Anycast(1,\xc2\x852)\"",
+			"\"1:2:Anycast(1\xc2\xa0,2)\"", "\"\xc5\x81\xc5\x81C_\""} {
+			add([]byte(s))
+		}
+	}
 	// random byte replacement
 	alpha := []byte("\"0123456789abcdefABCDEFgxX_:-+ ,().nul{}[]\\\n\t\r/e")
 	for k := 0; k < 4 && len(doc) > 0; k++ {
@@ -968,7 +976,8 @@ func (c *c20Gen) mutate(doc []byte, ascii bool) [][]byte {
 		add(b)
 	}
 	if !ascii && len(doc) > 0 {
-		for _, s := range []string{"\x80", "\xff", "\xc2\xa0", "\xc5\x81", "\xe2\x80\xa8", "\x00"} {
+		for _, s := range []string{"\x80", "\xff", "\xc2\xa0", "\xc5\x81", "\xe2\x80\xa8", "\x00", "\xe2\x80\x83", "\xe3\x80\x80",
+			"\xed\xa0\x80", "\xf0\x9f\x98\x80", "\xc0\xaf", "\xe0\x80\x80", "\xc2\x85", "\xe1\x9a\x80", "\xf4\x90\x80\x80", "\xc5"} {
 			k := g.Rng.Intn(len(doc) + 1)
 			add(cat(doc[:k], []byte(s), doc[k:]))
 		}
@@ -1023,7 +1032,7 @@ func genC20(g *h.G) {
 	}
 	type o = struct{ model, rt, ascii bool }
 	full := o{true, true, false}
-	asciiOnly := o{true, true, true}
+	asciiOnly := o{true, true, false} // rune-wise families: since the UTF-8 model, compared on all bytes too
 
 	for rep := 0; rep < reps; rep++ {
 		// generated machine integers: every width, boundaries and random values
